@@ -182,8 +182,58 @@ def run(check, repo: Repo) -> None:
     ok = len(acc) == 1 and isinstance(acc[0].op, ast.Add) and "np.bincount(inds_1D, weights=weights" in unparse(acc[0].value)
     check.decide(ok, "C15-R3", "bilinear_kde: the count map accumulates exactly the bilinear weights", "", imod.line(kde),
                  fail_detail="pix_count is not accumulated as bincount(inds_1D, weights=weights)")
+    # the weights that are accumulated are the table's corner weights themselves: a re-binding inside the splat loop that multiplies them by a
+    # mask drops mass.  An option-guarded re-binding is evaluated for the value the drift resampler (warp_image) actually passes.
+    if acc:
+        wexpr = None
+        for c in ast.walk(acc[0].value):
+            if isinstance(c, ast.Call) and call_name(c) == "np.bincount":
+                wexpr = kwarg(c, "weights")
+        corner_loop = next((n for n in ast.walk(kde) if isinstance(n, ast.For) and isinstance(n.iter, ast.List) and len(n.iter.elts) == 4), None)
+        if isinstance(wexpr, ast.Name) and corner_loop is not None:
+            rebinds = [n for st_ in corner_loop.body for n in ast.walk(st_) if isinstance(n, (ast.Assign, ast.AugAssign))
+                       and any(isinstance(t, ast.Name) and t.id == wexpr.id for t in (n.targets if isinstance(n, ast.Assign) else [n.target]))]
+            key_ = "bilinear_kde: the accumulated weights are the four corner weights themselves (nothing is masked out before the count map)"
+            if not rebinds:
+                check.holds("C15-R3", key_, "", imod.line(corner_loop))
+            for rb in rebinds:
+                masks = any(isinstance(x, ast.Compare) for x in ast.walk(rb.value)) or any(
+                    isinstance(x, ast.Name) and any(isinstance(d_, ast.AST) and any(isinstance(y, ast.Compare) for y in ast.walk(d_)) for d_ in definitions(kde, x.id))
+                    for x in ast.walk(rb.value) if isinstance(x, ast.Name) and x.id != wexpr.id)
+                if not masks:
+                    raise AnalysisError(f"bilinear_kde: `{unparse(rb)[:60]}` re-binds the corner weights in a way that is not recognised")
+                # guard on a parameter?
+                from ..core.repo import parent as _parent, param_default
+                g, cur, sense = None, rb, True
+                while cur is not corner_loop and cur is not None:
+                    par = _parent(cur)
+                    if isinstance(par, ast.If):
+                        g, sense = par, cur in par.body
+                        break
+                    cur = par
+                active = True
+                why = "unconditionally"
+                if g is not None:
+                    t, neg = g.test, False
+                    if isinstance(t, ast.UnaryOp) and isinstance(t.op, ast.Not):
+                        t, neg = t.operand, True
+                    if not (isinstance(t, ast.Name) and t.id in func_params(kde) and not definitions(kde, t.id)):
+                        raise AnalysisError(f"bilinear_kde: the corner weights are masked under `{unparse(g.test)[:50]}` — not decided")
+                    wcalls = [c for c in calls_in(wi) if (call_name(c) or "").split(".")[-1] == "bilinear_kde"]
+                    if len(wcalls) != 1:
+                        raise AnalysisError("warp_image: bilinear_kde call not found")
+                    passed = kwarg(wcalls[0], t.id) or param_default(kde, t.id)
+                    if not isinstance(passed, ast.Constant):
+                        raise AnalysisError(f"warp_image passes a non-constant `{t.id}` to bilinear_kde — not decided")
+                    truth = bool(passed.value) != neg
+                    active = truth == sense
+                    why = f"for {t.id}={passed.value!r}, the value the drift resampler passes"
+                check.decide(not active, "C15-R3", key_, f"masking branch not taken {why}", imod.line(rb), definite=True,
+                             fail_detail=f"`{unparse(rb)[:60]}` multiplies the corner weights by a mask {why}: contributions that fall outside the canvas are dropped instead "
+                                         f"of wrapped, so an image pixel near the canvas border contributes less than unit weight and the weight map no longer sums to the pixel count")
     # ---- R5/R6 fixed-point structure of align_translation ------------------------------------------------------
     _fixed_point(check, repo)
+    _rebuilt_geometry(check, repo)
     # ---- R4 borrowed rule instances: the NumPy registration helper behind align_translation (C13's rules on cross_correlation_shift / dft_upsample) ----
     from ..core.report import SubCheck
     from . import c13
@@ -376,6 +426,49 @@ def _fixed_point(check, repo: Repo) -> None:
             raise AnalysisError(f"{fn.name}: use of the image index `{ix}` outside a subscript not recognised (`{unparse(unknown[0])}` at {mod.line(unknown[0])})")
         else:
             check.holds("C15-R6", key, "", mod.line(lp))
+
+
+def _rebuilt_geometry(check, repo: Repo) -> None:
+    """C15-R7 — preprocess() derives the whole per-image geometry from the CURRENT settings: the knot list and the interpolator list are rebuilt on
+    every path; a list kept from an earlier call is only sound when the condition that keeps it covers everything its entries were built from."""
+    from ..core.cfg import assigned_on_every_path
+    mod, pre = repo.func(f"{DR}:DriftCorrection.preprocess")
+    for attr, ctor in (("self.knots", None), ("self.interpolator", "DriftInterpolator")):
+        key = f"preprocess: `{attr}` is rebuilt from the current settings on every path"
+        every, via, _ = assigned_on_every_path(pre, lambda t, a=attr: dotted(t) == a)
+        if not via:
+            raise AnalysisError(f"preprocess: no store into {attr}")
+        if every:
+            check.holds("C15-R7", key, f"{len(via)} store(s) on every normal path", mod.line(pre))
+            continue
+        guards = [n for n in walk_no_nested_defs(pre) if isinstance(n, ast.If) and any(isinstance(x, ast.Assign) and any(dotted(t) == attr for t in x.targets)
+                                                                                         for b in (n.body, n.orelse) for s_ in b for x in ast.walk(s_))]
+        if ctor is None or len(guards) != 1:
+            raise AnalysisError(f"preprocess: {attr} is kept from an earlier call under a condition that is not recognised")
+        # what the entries are built from (attributes of self in the constructor arguments) vs what the keeping condition looks at
+        built = set()
+        for c in calls_in(pre):
+            if call_name(c) == ctor:
+                for a in list(c.args) + [k.value for k in c.keywords]:
+                    built |= {dotted(x) for x in ast.walk(a) if isinstance(x, ast.Attribute) and dotted(x.value) == "self"}
+        seen, stack, looked = set(), [guards[0].test], set()
+        while stack:
+            e = stack.pop()
+            for x in ast.walk(e):
+                if isinstance(x, ast.Attribute) and dotted(x.value) == "self":
+                    looked.add(dotted(x))
+                elif isinstance(x, ast.Name) and x.id not in seen:
+                    seen.add(x.id)
+                    stack += [d for d in definitions(pre, x.id) if isinstance(d, ast.AST)]
+        missing = sorted(b for b in built if b and b not in looked)
+        if not built:
+            raise AnalysisError(f"preprocess: {ctor}(…) construction not found")
+        if missing:
+            check.violated("C15-R7", key, f"under `{unparse(guards[0].test)[:70]}` the list built by an earlier call is kept, but its entries were constructed from {missing}, which the "
+                           f"condition does not look at: after those settings change (e.g. new scan directions) the knots follow the new geometry while the kept "
+                           f"{ctor}s still resample along the old one", mod.line(guards[0]), definite=True)
+        else:
+            raise AnalysisError(f"preprocess: {attr} is kept under a condition covering all constructor inputs — equivalence not decided")
 
 
 def _add_terms(e: ast.AST) -> list[ast.AST]:
